@@ -1763,4 +1763,11 @@ theorem sortByAngle_sorted (l : List (Nat × P2)) :
   | cons x t ih => exact insertByAngle_sorted x _ ih
 
 
+
+theorem isInt3B_sound {p : P3} (h : isInt3B p = true) : IsInt3 p := by
+  simp only [isInt3B, isIntB, Bool.and_eq_true, beq_iff_eq] at h
+  exact ⟨⟨p.1.num, ((Rat.den_eq_one_iff _).mp h.1.1).symm⟩, ⟨p.2.1.num, ((Rat.den_eq_one_iff _).mp h.1.2).symm⟩,
+    ⟨p.2.2.num, ((Rat.den_eq_one_iff _).mp h.2).symm⟩⟩
+
+
 end PorepyVerif.C31
